@@ -59,7 +59,7 @@ ASSUMPTIONS = [
     'library writes); recency after overwriting a present key is unspecified',
 ]
 REQUIRED = [
-    'directed_cases', 'trees', 'histories', 'hist_fn_bound_128', 'hist_obj_bound_1024', 'hist_reduced_bound',
+    'directed_cases', 'lru_decorator_checks', 'trees', 'histories', 'hist_fn_bound_128', 'hist_obj_bound_1024', 'hist_reduced_bound',
     'value_checks', 'counter_checks', 'cache_info_checks', 'object_info_checks',
     'lru_invariant_checks', 'lru_order_checks', 'identity_checks',
     'identity_same_generation', 'pickle_roundtrips',
@@ -846,12 +846,43 @@ def run_chunk(ctx, spec):
     for i in range(len(_directed_cases())):
       ctx.count('directed_cases')
       run_history(ctx, [spec['rseed'], 0, i, 'directed'])
+    check_lru_cache_decorator(ctx, spec['rseed'])
     return
   for i in range(spec['count']):
     run_history(ctx, [spec['rseed'], spec['index'], i, mode])
 
 
+def check_lru_cache_decorator(ctx, rseed):
+  """func_utils.lru_cache (the decorator form of the same LruCache): a cached call
+  never returns the value of another call, also when argument tuples hash alike."""
+  import random as _r
+  from ml_metrics._src.utils import func_utils
+  rng = _r.Random(rseed * 977 + 5)
+  calls = []
+
+  @func_utils.lru_cache(maxsize=8)
+  def f(x, y=0):
+    calls.append((x, y))
+    return ('v', x, y)
+
+  pool = [-1, -2, 0, 2**61 - 1, 1, 1.5, 2**61, 'a', (1, 2), (1, -1), (1, -2)]
+  case = {'lru_decorator': 1, 'rseed': rseed}
+  for _ in range(300):
+    x, y = rng.choice(pool), rng.choice([0, 0, -1, -2])
+    ctx.count('lru_decorator_checks')
+    got = f(x, y) if y else f(x)
+    if got != ('v', x, y) or type(got[1]) is not type(x):
+      ctx.violation('cached_call_returned_other_value', case,
+                    {'args': repr((x, y)), 'got': repr(got)},
+                    mechanism='lru-cache-decorator-keyed-by-hash-of-arguments')
+      return
+  ctx.case(('lru_decorator', rseed), True)
+
+
 def run_case(ctx, case):
+  if 'lru_decorator' in case:
+    check_lru_cache_decorator(ctx, case['rseed'])
+    return
   if 'probe' in case:
     check_both_flags(ctx)
     return
